@@ -328,7 +328,63 @@ func trials() []trial {
 	for _, g := range []string{"UnitDurationSeconds", "UnitBytes", "UnitDurationNanoseconds", "UnitCharacters", "UnitPercentage"} {
 		out = append(out, trial{g, "parse", "parse"}, trial{g, "parse", "format"}, trial{g, "format", "format"})
 	}
+	// the package-level meta-schemas: loading a description / describing a schema for the first time in the process,
+	// from two threads at once
+	for _, pr := range [][2]string{{"loadScope", "loadScope"}, {"loadScope", "describe"}, {"describe", "describe"}, {"loadSchema", "loadSchema"}, {"loadSchema", "describe"}, {"loadScope", "loadSchema"}} {
+		out = append(out, trial{"meta", pr[0], pr[1]})
+	}
 	return out
+}
+
+// metaDescription is written by hand: producing it with SelfSerialize would already be a first use of the meta-schema.
+func metaDescription() map[string]any {
+	return map[string]any{"root": "R", "objects": map[string]any{
+		"R": map[string]any{"id": "R", "properties": map[string]any{
+			"x": map[string]any{"type": map[string]any{"type_id": "string", "min": int64(1)}, "required": true, "default": "\"d\""},
+			"n": map[string]any{"type": map[string]any{"type_id": "integer", "units": map[string]any{"base_unit": map[string]any{"name_short_singular": "B", "name_short_plural": "B", "name_long_singular": "byte", "name_long_plural": "bytes"}}}},
+			"c": map[string]any{"type": map[string]any{"type_id": "ref", "id": "C"}},
+			"l": map[string]any{"type": map[string]any{"type_id": "list", "items": map[string]any{"type_id": "bool"}}},
+		}},
+		"C": map[string]any{"id": "C", "properties": map[string]any{
+			"e": map[string]any{"type": map[string]any{"type_id": "enum_string", "values": map[string]any{"a": map[string]any{"name": "A"}}}},
+		}},
+	}}
+}
+
+func metaUse(kind string) func() string {
+	switch kind {
+	case "loadScope":
+		d := ukit.DeepCopy(metaDescription())
+		return func() string {
+			sc, err := schema.UnserializeScope(d)
+			if err != nil {
+				return "error " + err.Error()
+			}
+			_, err = sc.Unserialize(map[string]any{"x": "a", "n": "5B", "c": map[string]any{"e": "a"}, "l": []any{true}})
+			return fmt.Sprint("loaded; first input accepted: ", err == nil)
+		}
+	case "loadSchema":
+		d := map[string]any{"steps": map[string]any{"s": map[string]any{"id": "s", "input": ukit.DeepCopy(metaDescription()),
+			"outputs": map[string]any{"ok": map[string]any{"schema": ukit.DeepCopy(metaDescription())}}}}}
+		return func() string {
+			_, err := schema.UnserializeSchema(d)
+			if err != nil {
+				return "error " + err.Error()
+			}
+			return "loaded"
+		}
+	}
+	sc := schema.NewScopeSchema(schema.NewObjectSchema("R", map[string]*schema.PropertySchema{
+		"x": schema.NewPropertySchema(schema.NewStringSchema(schema.IntPointer(1), nil, nil), nil, true, nil, nil, nil, schema.PointerTo("\"d\""), nil),
+		"f": schema.NewPropertySchema(schema.NewFloatSchema(nil, nil, schema.UnitBytes), nil, false, nil, nil, nil, nil, nil),
+	}))
+	return func() string {
+		d, err := sc.SelfSerialize()
+		if err != nil {
+			return "error " + err.Error()
+		}
+		return "described " + ukit.Snapshot(d)
+	}
 }
 
 func globalUnits(name string) (*schema.UnitsDefinition, string) {
@@ -347,6 +403,10 @@ func globalUnits(name string) (*schema.UnitsDefinition, string) {
 
 func runTrial(i int) {
 	t := trials()[i]
+	if t.Global == "meta" {
+		runMetaTrial(t)
+		return
+	}
 	u, text := globalUnits(t.Global)
 	sch := schema.NewIntSchema(nil, nil, u)
 	use := func(kind string) func() {
@@ -374,6 +434,36 @@ func runTrial(i int) {
 	fmt.Println(string(b))
 }
 
+// runMetaTrial: both uses run concurrently in this fresh process; each result must be what the same use returns
+// alone afterwards (when every lazily built part of the meta-schema exists).
+func runMetaTrial(t trial) {
+	a, b := metaUse(t.A), metaUse(t.B)
+	var ra, rb string
+	r := mcrt.Run(nil, func() {
+		var wg mcrt.WaitGroup
+		wg.Add(2)
+		mcrt.GoNamed("a", func() { defer wg.Done(); ra = a() })
+		mcrt.GoNamed("b", func() { defer wg.Done(); rb = b() })
+		wg.Wait()
+	}, mcrt.RunOpts{Races: true})
+	var sigs []string
+	for _, rc := range r.Races {
+		sigs = append(sigs, raceSig(rc)+"\t"+rc.String())
+	}
+	sort.Strings(sigs)
+	diff := ""
+	if r.Status == mcrt.StComplete {
+		if alone := metaUse(t.A)(); alone != ra {
+			diff += fmt.Sprintf("%s: concurrently %s, alone %s; ", t.A, clip(ra), clip(alone))
+		}
+		if alone := metaUse(t.B)(); alone != rb {
+			diff += fmt.Sprintf("%s: concurrently %s, alone %s; ", t.B, clip(rb), clip(alone))
+		}
+	}
+	out, _ := json.Marshal(map[string]any{"status": r.Status.String(), "races": sigs, "panic": r.PanicValue, "diff": diff, "a": clip(ra), "b": clip(rb)})
+	fmt.Println(string(out))
+}
+
 func pre(tier string, rep *lib.Report) (int, map[string]any) {
 	self, _ := os.Executable()
 	n := 0
@@ -390,10 +480,21 @@ func pre(tier string, rep *lib.Report) (int, map[string]any) {
 			Status string
 			Races  []string
 			Panic  string
+			Diff   string
 		}
 		if json.Unmarshal(out, &res) != nil {
 			rep.InfraError("bad trial output: " + string(out))
 			continue
+		}
+		if res.Diff != "" {
+			rep.Violate("first concurrent use of the package-level meta-schema returns something else than in isolation", fmt.Sprintf("%v: %s", t, res.Diff), map[string]any{"trial": i})
+		}
+		if res.Status == "infra" {
+			rep.InfraError(fmt.Sprintf("trial %v: scheduler infrastructure error", t))
+			continue
+		}
+		if res.Status != "complete" && res.Status != "panic" {
+			rep.Violate("first concurrent use of a package-level definition does not complete: "+res.Status, fmt.Sprintf("%v", t), map[string]any{"trial": i})
 		}
 		if res.Status == "panic" {
 			rep.Violate("panic in a first use of a package-level unit definition", fmt.Sprintf("%v: %s", t, res.Panic), map[string]any{"trial": i})
